@@ -820,10 +820,10 @@ func r9_3(c *Ctx) {
 		b, ok := s.Elem().Underlying().(*types.Basic)
 		return ok && b.Kind() == types.String
 	}, "(*sourcemap.SourceMapper).AddNamedMapping")
-	idx := c.fieldByType("sourcemap", "SourceMapper", func(t types.Type) bool {
+	idx := c.fieldByTypeUsedIn("sourcemap", "SourceMapper", func(t types.Type) bool {
 		_, ok := t.Underlying().(*types.Map)
 		return ok
-	})
+	}, "(*sourcemap.SourceMapper).AddNamedMapping")
 	add := c.fn("(*sourcemap.SourceMapper).AddNamedMapping")
 	ctor := c.fn("sourcemap.New")
 	if names == nil || idx == nil || add == nil || ctor == nil {
